@@ -91,7 +91,7 @@ fn probe_steps(tx: usize) -> Vec<Step> {
 
 fn probe_script(first: &ConnectSpec, tx: usize) -> ConnScript {
     ConnScript {
-        connect: ConnectSpec { handshake: Handshake::Accept, keep_session: true, props: ConnackProps { receive_max: None, ..first.props.clone() }, io: IoCfg::default() },
+        connect: ConnectSpec { handshake: Handshake::Accept, keep_session: true, props: ConnackProps { receive_max: None, ..first.props.clone() }, io: IoCfg::default(), lost_pubrecs: false },
         steps: probe_steps(tx),
         end: EndHow::Drop,
     }
